@@ -245,14 +245,16 @@ Proof.
   rewrite (spec_enc_align be v t o1 Hwt) in Hb. destruct (has_at_app _ _ _ _ Hb) as [Hz Hb2]. rewrite len_zeros in Hb2.
   rewrite (u_align_ok (align t) c1) by (try apply align_pos; exact Hz). cbn [bind set_off uoff ubuf unfds udepth c1].
   set (o2 := o1 + padlen (align t) o1) in *.
-  rewrite u_enter_ok by (cbn [udepth]; exact Hd). cbn [bind udepth uoff ubuf].
+  rewrite u_enter_ok by (cbn [udepth]; exact Hd). subst c1. cbn [bind udepth uoff ubuf unfds set_off].
   rewrite <- (encodable_align be v t o1 (udepth c + 1) Hwt) in Hev. fold o2 in Hev.
   rewrite (validate_complete_gen be v t (udepth c + 1) o2 (ubuf c) 66%nat Hwt Hev Hb2 (fuel_ok_66 _)). cbn [bind].
   pose proof (has_at_bound _ _ _ Hb2) as Hbound.
   rewrite u_sub_ok by (cbn [uoff ubuf]; exact Hbound). cbn [bind fst snd uoff ubuf unfds udepth set_off].
-  eexists. split; [|cbn [ubuf uoff unfds udepth]; repeat split].
-  - unfold after_variant. rewrite Hlen. cbn [set_off]. do 3 f_equal.
-    rewrite (spec_enc_align be v t o1 Hwt), len_app, len_zeros. fold o2. lia.
+  eexists. split.
+  { apply f_equal. apply f_equal2; [reflexivity|].
+    rewrite !set_off_set_off. unfold after_variant. apply set_off_eq.
+    rewrite Hlen, (spec_enc_align be v t o1 Hwt), len_app, len_zeros. fold o2. lia. }
+  cbn [ubuf uoff unfds udepth]. repeat split.
   - apply has_at_clip; [exact Hb2|lia].
   - apply len_clip. exact Hbound.
 Qed.
@@ -273,7 +275,7 @@ Section Hit.
     intros Hav Hm Hf. destruct (at_variant_parts _ _ _ _ Hav) as (Hd & Hok & Hrs & Hev & Hb & Hlen).
     destruct Hav as [Hwt _ Hfd _]. rewrite unmarshal_r_tup. unfold set_off at 1.
     rewrite (unmarshal_t_complete_gen be (tup r) v _ _ _ _ vf Hm
-               (encodable_mono be v _ _ (udepth c) ltac:(lia) Hev) Hfd Hb Hf).
+               (encodable_mono be v _ (udepth c + 1) (udepth c) ltac:(lia) Hev) Hfd Hb Hf).
     unfold after_variant, set_off. rewrite Hlen. do 3 f_equal. lia.
   Qed.
 
